@@ -44,6 +44,10 @@ QUERIES = ["children", "branches", "paths", "tips", "neurites", "nodebranch", "l
 # a copy / geometric transform of a tree that was looked at; the current tree itself; any earlier tree of this pipeline
 CAT_OPERANDS = ["fresh", "queried", "used", "derived", "self", "earlier"]
 DERIVERS = ["copy", "translate", "scale", "rotx", "rotate", "origin", "radius"]      # operations that keep every node: "the same neuron, moved"
+# steps carried out by a transform object (flag `obj`: by the ONE object of that name of the pipeline, see apply_unary)
+TRANSFORM_OBJECTS = ["cuttype", "cutorder", "cuttip", "translate", "scale", "rotate", "rotx", "roty", "rotz", "affine", "origin", "normalize", "radius",
+                     "smooth", "resample", "compose"]
+KEEPERS = ["translate", "scale", "rotate", "rotx", "roty", "rotz", "affine", "origin", "radius", "smooth", "compose"]     # ... that keep every node
 SORTED_OUT = ("sort", "redirect", "cat", "sort-after-nosort")
 
 
@@ -63,6 +67,25 @@ def make_ops(rng, length):
     for _ in range(length):
         ops.append(rand_step(rng))
     return ops
+
+
+def reuse_ops(rng, t, pattern):
+    """pipelines in which ONE transform object `t` is called more than once: what the object remembers from a call is there at the next"""
+    o = t + "|obj"
+    between = rng.choice(KEEPERS + ["copy", "sort", "roundtrip"])
+    return {
+        "own-result": [o, o],                                                   # t(t(x))
+        "own-result-thrice": [o, o, o],
+        "same-input": [o + "|keep", o],                                         # t(x); t(x)
+        "looked-at": [o, "query|" + rng.choice(QUERIES), o],
+        "other-op-between": [o, between, o],                                    # t(u(t(x)))
+        "other-tree": [o + "|keep", "cat|fresh" + ("|swap" if rng.random() < 0.5 else ""), o],      # t(x); t(a different tree)
+        "as-member": [o, "members"],                                            # Transforms(t)(t(x))
+        "as-member-twice": [o, rng.choice(KEEPERS) + "|obj", "members", "members"],
+    }[pattern]
+
+
+REUSE_PATTERNS = ["own-result", "own-result-thrice", "same-input", "looked-at", "other-op-between", "other-tree", "as-member", "as-member-twice"]
 
 
 def pair_steps():
@@ -113,13 +136,28 @@ def query(t, kind, rng):
     return None
 
 
-def apply_unary(op, cur, rng, info, legacy=False):
+def apply_unary(op, cur, rng, info, legacy=False, objs=None):
     """apply one one-tree operation with arguments drawn from rng; returns (result, position the root must keep | None), or None when the
-    operation's own precondition does not hold for this tree (then nothing is called)"""
+    operation's own precondition does not hold for this tree (then nothing is called).
+    `objs` (step flag `obj`): the transform OBJECTS of this pipeline, by step name - the operation is then carried out by the object an earlier
+    `obj` step of the same name built (with the arguments drawn then), the way one transform instance serves every sample of a dataset."""
     L = lib()
     n = cur.number_of_nodes()
     nosort_root = None
     info["arg"] = None
+
+    def tf(build, arg=None):
+        """the transform object of this step: built now, or - with `objs` - the one built by the first such step of the pipeline"""
+        if objs is None:
+            info["arg"] = arg() if callable(arg) else arg
+            return build(info["arg"])
+        if op not in objs:
+            a = arg() if callable(arg) else arg
+            objs[op] = (build(a), a)
+        info["arg"] = objs[op][1]
+        info["reused"] = objs.setdefault("#calls", {}).get(op, 0)
+        objs["#calls"][op] = info["reused"] + 1
+        return objs[op][0]
     if op == "sort":
         y = L.sort_tree(cur)
     elif op == "subtree":
@@ -142,9 +180,9 @@ def apply_unary(op, cur, rng, info, legacy=False):
         if op == "redirect-nosort":
             nosort_root = info["arg"]
     elif op == "cuttype":
-        info["arg"] = int(rng.choice(sorted(set(int(v) for v in cur.type())))); y = L.CutByType(info["arg"])(cur)
+        y = tf(lambda a: L.CutByType(a), lambda: int(rng.choice(sorted(set(int(v) for v in cur.type())))))(cur)
     elif op == "cutorder":
-        info["arg"] = rng.randint(1, 3); y = L.CutByFurcationOrder(info["arg"])(cur)
+        y = tf(lambda a: L.CutByFurcationOrder(a), lambda: rng.randint(1, 3))(cur)
     elif op == "cuttip":
         # thresholds on the scale of the tree itself (just above one of its segment lengths, above all of them) next to fixed ones, so that
         # both "nothing is short enough" and "some twigs go" happen
@@ -152,53 +190,66 @@ def apply_unary(op, cur, rng, info, legacy=False):
         seg = [float(np.linalg.norm(xyz[i] - xyz[int(pid[i])])) for i in range(n) if 0 <= int(pid[i]) < n]
         seg = [s for s in seg if np.isfinite(s)]
         cand = [0.5, 2.0, 10.0] + ([1.01 * rng.choice(seg) + 1e-3, 1.5 * max(seg) + 1e-3, 1.5 * max(seg) + 1e-3] if seg and not legacy else [])
-        info["arg"] = float(rng.choice(cand)); y = L.CutShortTipBranch(thre=info["arg"])(cur)
+        y = tf(lambda a: L.CutShortTipBranch(thre=a), lambda: float(rng.choice(cand)))(cur)
     elif op == "translate":
-        y = L.Translate(rng.randint(-9, 9), rng.randint(-9, 9), 1.5)(cur)
+        y = tf(lambda a: L.Translate(rng.randint(-9, 9), rng.randint(-9, 9), 1.5))(cur)
     elif op == "scale":
-        y = L.Scale(2.0, 0.5, 3.0, center=rng.choice(["root", "origin"]))(cur)
+        y = tf(lambda a: L.Scale(2.0, 0.5, 3.0, center=rng.choice(["root", "origin"])))(cur)
     elif op == "rotate":
-        y = L.Rotate(np.array([0.6, 0.0, 0.8]), rng.uniform(-3, 3), center=rng.choice(["root", "origin"]))(cur)
+        y = tf(lambda a: L.Rotate(np.array([0.6, 0.0, 0.8]), rng.uniform(-3, 3), center=rng.choice(["root", "origin"])))(cur)
     elif op in ("rotx", "roty", "rotz"):
-        y = {"rotx": L.RotateX, "roty": L.RotateY, "rotz": L.RotateZ}[op](rng.uniform(-3, 3))(cur)
+        y = tf(lambda a: {"rotx": L.RotateX, "roty": L.RotateY, "rotz": L.RotateZ}[op](rng.uniform(-3, 3)))(cur)
     elif op == "affine":
         # a generic invertible affine map given the way a user writes one: an ordinary numpy matrix (float64), sometimes float32
-        m = np.eye(4)
-        for i in range(3):
-            m[i, i] = rng.choice([0.5, 1.0, 2.0, -1.0])
-            for j in range(i):
-                m[i, j] = rng.choice([0.0, 0.0, 0.5, -1.0])
-            m[i, 3] = rng.randint(-9, 9)
-        dt = rng.choice(["float64", "float64", "float32"])
-        info["arg"] = dt
-        y = L.AffineTransform(m.astype(dt), center=rng.choice(["origin", "root"]))(cur)
+        def affine(_):
+            m = np.eye(4)
+            for i in range(3):
+                m[i, i] = rng.choice([0.5, 1.0, 2.0, -1.0])
+                for j in range(i):
+                    m[i, j] = rng.choice([0.0, 0.0, 0.5, -1.0])
+                m[i, 3] = rng.randint(-9, 9)
+            dt = rng.choice(["float64", "float64", "float32"])
+            info["dt"] = dt
+            return L.AffineTransform(m.astype(dt), center=rng.choice(["origin", "root"]))
+        y = tf(affine)(cur)
+        info["arg"] = info.pop("dt", info["arg"])
     elif op == "origin":
-        y = L.TranslateOrigin()(cur)
+        y = tf(lambda a: L.TranslateOrigin())(cur)
     elif op == "normalize":
         # Normalizer divides every column by its maximum: a column whose maximum is 0 is outside its domain
         if any(float(np.max(cur.get_ndata(c))) == 0 or not np.all(np.isfinite(cur.get_ndata(c))) for c in ("x", "y", "z", "r")):
             return None
         if legacy and (n < 2 or any(float(np.max(cur.get_ndata(c))) <= 0 for c in ("x", "y", "z", "r"))):
             return None
-        y = L.Normalizer()(cur)
+        y = tf(lambda a: L.Normalizer())(cur)
     elif op == "radius":
-        y = L.RadiusReseter(0.75)(cur)
+        y = tf(lambda a: L.RadiusReseter(0.75))(cur)
     elif op == "smooth":
-        info["arg"] = rng.choice([3, 5]); y = L.TreeSmoother(info["arg"])(cur)
+        y = tf(lambda a: L.TreeSmoother(a), lambda: rng.choice([3, 5]))(cur)
     elif op == "resample":
         # the resampler starts from `tree.soma()` (type-checked) and needs distinct, finite node positions
         if n < 2 or len(set(map(tuple, cur.xyz().tolist()))) < n or int(cur.type()[0]) != 1 or not np.all(np.isfinite(cur.xyz())):
             return None
-        info["arg"] = rng.choice([0.5, 2.0, 7.0])
-        if not legacy:      # keep the result to a few thousand nodes: a spacing far below the tree's scale only makes the same case bigger
-            xyz, pid = cur.xyz().astype(np.float64), cur.pid()
-            total = sum(float(np.linalg.norm(xyz[i] - xyz[int(pid[i])])) for i in range(n) if 0 <= int(pid[i]) < n)
-            info["arg"] = max(info["arg"], total / 2000.0)
-        y = L.IsometricResampler(info["arg"])(cur)
+        xyz, pid = cur.xyz().astype(np.float64), cur.pid()
+        total = sum(float(np.linalg.norm(xyz[i] - xyz[int(pid[i])])) for i in range(n) if 0 <= int(pid[i]) < n)
+
+        def spacing():  # keep the result to a few thousand nodes: a spacing far below the tree's scale only makes the same case bigger
+            d = rng.choice([0.5, 2.0, 7.0])
+            return d if legacy else max(d, total / 2000.0)
+        if objs is not None and op in objs and objs[op][1] < total / 4000.0:
+            return None         # the pipeline's resampler was built for a much smaller tree
+        y = tf(lambda a: L.IsometricResampler(a), spacing)(cur)
     elif op == "roundtrip":
         y = L.Tree.from_swc(io.StringIO(cur.to_swc()))
     elif op == "compose":
-        y = L.Transforms(L.Translate(1, 2, 3), L.RadiusReseter(1.25), L.TranslateOrigin())(cur)
+        y = tf(lambda a: L.Transforms(L.Translate(1, 2, 3), L.RadiusReseter(1.25), L.TranslateOrigin()))(cur)
+    elif op == "members":
+        # Transforms(...) put together from the transform objects this pipeline has already used (those that keep every node)
+        names = [k for k in (objs or {}) if k in KEEPERS]
+        if not names:
+            return None
+        info["arg"] = names
+        y = L.Transforms(*[objs[k][0] for k in names])(cur)
     elif op == "copy":
         y = cur.copy()
     else:
@@ -259,6 +310,27 @@ class Pipeline(Suite):
                     t = gen.tree_case(rng, n, shape, numbering=rng.choice(["sorted", "root0", "root0"]), coords="dyadic", types="mixed")
                     t["xyz"] = [[c / 16.0 for c in p] for p in t["xyz"]]
                     out.append({"class": shape, "family": "pair", "v": 2, "tree": t, "ops": [a, b], "seed": rng.randrange(10**6)})
+        # (3) one transform object serving several calls of a pipeline (a dataset applies one instance to every sample; Transforms(...) holds
+        #     its members): every transform x every way of meeting it again, then random pipelines whose transform steps share their objects
+        for rep in range(1 if not big else 3):
+            for t in TRANSFORM_OBJECTS:
+                for pat in REUSE_PATTERNS if rep == 0 else rng.sample(REUSE_PATTERNS, 4):
+                    shape = gen.pick_shape(rng, k); k += 1
+                    if shape in ("single", "two"):
+                        shape = "random"
+                    tr = gen.tree_case(rng, rng.choice([4, 5, 6, 7, 9, 12]), shape, numbering=rng.choice(["sorted", "root0", "root0"]), coords="dyadic", types="mixed")
+                    tr["xyz"] = [[c / 16.0 for c in p] for p in tr["xyz"]]
+                    out.append({"class": f"reuse/{pat}/{shape}", "family": "reuse", "pattern": pat, "v": 2, "tree": tr, "ops": reuse_ops(rng, t, pat), "seed": rng.randrange(10**6)})
+        for _ in range(40 if not big else 160):
+            shape = gen.pick_shape(rng, k); k += 1
+            tr = gen.tree_case(rng, rng.choice([3, 5, 8, 13, 21]), shape, numbering=rng.choice(["sorted", "root0", "root0"]), coords="dyadic", types="mixed")
+            tr["xyz"] = [[c / 16.0 for c in p] for p in tr["xyz"]]
+            vocab = rng.sample(TRANSFORM_OBJECTS, 3)        # few names, so that they meet again
+            ops = []
+            for _i in range(rng.randint(3, 8 if not big else 20)):
+                u = rng.random()
+                ops.append(rng.choice(vocab) + "|obj" + ("|keep" if rng.random() < 0.15 else "") if u < 0.6 else "members" if u < 0.7 else rand_step(rng))
+            out.append({"class": f"reuse/random/{shape}", "family": "reuse", "pattern": "random", "v": 2, "tree": tr, "ops": ops, "seed": rng.randrange(10**6)})
         return out
 
     def run(self, case):
@@ -270,6 +342,7 @@ class Pipeline(Suite):
         legacy = case.get("v", 1) < 2          # stored cases of earlier rounds keep the arguments they were stored with
         cur = gen.make_tree(case["tree"])
         pool = [cur]                  # every well-formed tree of this pipeline so far (inputs and results)
+        objs = {}                     # the transform objects of this pipeline (steps flagged `obj`)
         steps = []
         info = {"arg": None}
         with warnings.catch_warnings():
@@ -297,7 +370,7 @@ class Pipeline(Suite):
                         info["arg"] = [node1, node2, rng.random() < 0.6]
                         y = L.cat_tree(t1, t2, node1, node2, translate=info["arg"][2])
                     else:
-                        r = apply_unary(base, cur, rng, info, legacy)
+                        r = apply_unary(base, cur, rng, info, legacy, objs if "obj" in flags or base == "members" else None)
                         if r is None:
                             continue
                         y, nosort_root = r
@@ -311,6 +384,8 @@ class Pipeline(Suite):
                        "wide_in": wide_in}
                 if "other_pids" in info:
                     rec["other_pids"] = info["other_pids"]
+                if "reused" in info:
+                    rec["reused"] = info["reused"]          # how often this step's transform object had been called before
                 rec["input_changed"] = [c for c in COLS if not np.array_equal(before[c], cur.get_ndata(c))]
                 rec["shares"] = [(a, b) for a in COLS for b in COLS if np.shares_memory(cur.get_ndata(a), y.get_ndata(b))]
                 if other is not None:
@@ -334,6 +409,14 @@ class Pipeline(Suite):
         return {"steps": steps}
 
     def oracle(self, case, res):
+        try:
+            return self._oracle(case, res)
+        except Exception as e:  # noqa: BLE001 - a result the oracle cannot even read is not a well-formed tree
+            return [("malformed-result", f"{type(e).__name__}: {e} while judging the result of {case.get('ops') if isinstance(case, dict) else case}: {str(res)[:300]}")]
+
+    def _oracle(self, case, res):
+        if not isinstance(res, dict) or not isinstance(res.get("steps", []), list):
+            return [("malformed-result", f"not a step record: {str(res)[:300]}")]
         if "exc" in res:
             return [("pipeline-raises", f"{res['exc']}: {res.get('msg')} at {res.get('at', '?')} on a tree of {res.get('n_in', '?')} nodes (ops={case['ops']}, "
                                         f"pids={case['tree']['pids']}); tb={res.get('tb', '')[-300:]}")]
@@ -342,6 +425,8 @@ class Pipeline(Suite):
             what = f"result {k}, of {'|'.join([st['op']] + st.get('flags', []))}({st['arg']}), in {case['ops']} on pids={case['tree']['pids']}"
             if "other_pids" in st:
                 what += f" (other tree: pids={st['other_pids']})"
+            if st.get("reused"):
+                what += f" (carried out by the transform object that served {st['reused']} earlier step(s) of this pipeline)"
             ids, pids = st["id"], st["pid"]
             if st["n_out"] == 0:
                 continue
@@ -379,6 +464,8 @@ class Pipeline(Suite):
     def klass(self, case, res):
         steps = res.get("steps", []) if isinstance(res, dict) else []
         wide = "/f64in" if any(any(c.split(":")[-1] in "xyzr" for c in st.get("wide_in", [])) for st in steps) else ""
+        if case.get("family") == "reuse":
+            return f"reuse/{case.get('pattern', '?')}{wide}"
         return f"{case.get('family', 'random')}/len{min(len(case['ops']) // 3 * 3, 12)}{wide}"
 
 
@@ -387,7 +474,8 @@ TECHNIQUE = ("Lean 4 theorem by induction over operation lists: each topology-le
              "well-formed parent list to a well-formed one (sorted where documented), built from the theorems of C05/C06/C07 and the representation lemma; heap-level "
              "freshness from C09 + pipelines of the real operations with well-formedness, input hashes and np.shares_memory checked after every step: random "
              "pipelines plus every operation applied to the result of every operation (column dtypes / anything remembered on the tree object carry over), "
-             "with read-only queries between steps, inputs handed to a second operation, and cat_tree operands that were queried / used / derived / the tree itself")
+             "with read-only queries between steps, inputs handed to a second operation, cat_tree operands that were queried / used / derived / the tree itself, "
+             "and pipelines in which one transform object serves several steps (its own result, the same input twice, another tree, as a member of Transforms)")
 LEVEL_TEXT = ("Kernel-checked: for every well-formed parent list and every list of the modelled operations (sort, re-root with/without sort, get_subtree, to_subtree, "
               "coordinate/radius transforms, SWC round trip), every intermediate result is well-formed — ids are positions, one root, parents valid, every node reaches the "
               "root — and sorted where the operation documents it; re-rooting without sort keeps the new root in place. Copies allocate fresh arrays (C09), so inputs are "
